@@ -809,7 +809,13 @@ func run(repo string) (string, error) {
 
 // PointMethods / ScalarMethods: the methods pinned as text
 var PointMethods = []string{"MarshalSize", "MarshalBinary", "UnmarshalBinary", "Equal", "Set", "Clone", "Null", "Base", "Add", "Sub", "Neg", "Mul"}
-var ScalarMethods = []string{"Equal", "Set", "Clone", "setInt", "SetInt64", "toInt", "Zero", "One", "Add", "Sub", "Neg", "Mul", "Div", "Inv", "Pick", "SetBytes", "MarshalSize", "MarshalBinary", "UnmarshalBinary"}
+var ScalarMethods = []string{"Equal", "Set", "Clone", "setInt", "SetInt64", "toInt", "Zero", "One", "Add", "Sub", "Neg", "Mul", "Div", "Inv", "Pick", "SetBytes", "MarshalSize", "MarshalBinary", "UnmarshalBinary", "MarshalTo", "UnmarshalFrom"}
+
+// PointPinOnly: pinned as text, not translated (they only forward to group/internal/marshalling)
+var PointPinOnly = []string{"MarshalTo", "UnmarshalFrom"}
+
+// MarshallingFuncs: group/internal/marshalling, pinned as text
+var MarshallingFuncs = []string{"PointMarshalTo", "PointUnmarshalFrom", "ScalarMarshalTo", "ScalarUnmarshalFrom"}
 
 func printed(fset *token.FileSet, n ast.Node) string {
 	var b bytes.Buffer
@@ -822,7 +828,7 @@ func wrapperPins(dir string) (string, error) {
 	for _, src := range []struct {
 		file, recv, prefix string
 		methods            []string
-	}{{"point.go", "point", "point", PointMethods}, {"scalar.go", "scalar", "scalar", ScalarMethods}} {
+	}{{"point.go", "point", "point", append(append([]string{}, PointMethods...), PointPinOnly...)}, {"scalar.go", "scalar", "scalar", ScalarMethods}} {
 		fset := token.NewFileSet()
 		f, err := parser.ParseFile(fset, filepath.Join(dir, src.file), nil, 0) // comments dropped
 		if err != nil {
@@ -851,6 +857,24 @@ func wrapperPins(dir string) (string, error) {
 					s += fmt.Sprintf("def %s_type_src : String := %s\n", src.prefix, ex.LeanStr(printed(fset, ts)))
 				}
 			}
+		}
+	}
+	{
+		fset := token.NewFileSet()
+		f, err := parser.ParseFile(fset, filepath.Join(dir, "..", "internal", "marshalling", "marshal.go"), nil, 0)
+		if err != nil {
+			return "", err
+		}
+		for _, m := range MarshallingFuncs {
+			fd := ex.FuncDecl(f, "", m)
+			if fd == nil || fd.Body == nil {
+				return "", fmt.Errorf("marshalling: func %s not found", m)
+			}
+			lines := []string{ex.LeanStr(printed(fset, fd.Type))}
+			for _, st := range fd.Body.List {
+				lines = append(lines, ex.LeanStr(printed(fset, st)))
+			}
+			s += fmt.Sprintf("/-- marshalling.%s -/\ndef marshalling_%s_src : List String :=\n  [%s]\n", m, m, strings.Join(lines, ",\n   "))
 		}
 	}
 	return s, nil
